@@ -50,7 +50,7 @@ def driverLine (inp obs : List String) : Bool × Bool × String × String :=
     match parsePeer peer, parseRes res, parseWire wire with
     | some p, some r, some w =>
       -- cfg 2: `with_tls` called twice, the intended configuration last: the same case as 1
-      let c : Case := { cfg := cfg == "1" || cfg == "2", alpnC := parseAlpn ac, scheme := scheme, host := host, peer := p,
+      let c : Case := { cfg := cfg == "1" || cfg == "2", alpnC := parseAlpn ac, scheme := scheme, host := ((host.splitOn "@").getLast?).getD host, peer := p,
                         alpnS := parseAlpn asv, nameValid := nv == "1", hostHeader := hostHdr, fromParts := fromParts }
       let o : Obs := { res := r, wire := w, leak := leak == "1", sni := optS sni, alpn := optS alpn, app := app == "1" }
       let m := run c
